@@ -696,5 +696,117 @@ theorem sto_of_small (H : Bytes → Bytes) (hH : ∀ m, (H m).length = 32) (G : 
             omega
         exact ⟨sto_of_small H hH G (cs i) (kn i) x hki.2 hsmall, fun _ h32 => by omega⟩
 
+/-! ### `EncodeAndHash(Root)` on a dirty represented cell -/
+
+theorem encodeAndHash_pure (H : Bytes → Bytes) (G : Bytes → Bytes → Prop) (root : Bool) :
+    ∀ (t : Trie) (N : Node) (a : Nat) (hp : Heap) (r : Bool), HRep hp t N a → (hp.get a).dirty = true →
+      Coh H G hp r t N a → depth t ≤ bigFuel + 1 →
+      ∃ hp1, DT hp hp1 (depth t) ∧
+        encodeAndHash H root hp a =
+          (hp1.modify a (fun x => { x with mv := some (if root then H (encode H N)
+                                                       else Gossamer.merkleValue H (encode H N)) }),
+           some (encode H N, if root then H (encode H N) else Gossamer.merkleValue H (encode H N)))
+  | .nil, _, _, _, _, h, _, _, _ => h.elim
+  | .leaf pk v, N, a, hp, r, h, hd, hc, hdep => by
+    refine ⟨hp, DT.refl hp _, ?_⟩
+    unfold encodeAndHash
+    have hek : (hp.get a).encKids = noKids := by
+      unfold HNode.encKids; rw [h.1]; rfl
+    rw [hek, encodeKids_noKids]
+    unfold hashFinish
+    simp only [List.append_nil]
+    rw [hrep_enc_leaf H h]
+  | .branch pk v cs, N, a, hp, r, h, hd, hc, hdep => by
+    obtain ⟨hb, hpk, hv, kn, hN, hk⟩ := h
+    have hek : (hp.get a).encKids = (hp.get a).kids := by
+      unfold HNode.encKids; rw [hb]; rfl
+    have hkidc : ∀ i c, (hp.get a).kids i = some c → Coh H G hp false (cs i) (kn i) c := by
+      intro i c hic
+      have := hc.2 hd i c hic
+      rw [hN, kidAt_map] at this
+      exact this
+    have hloop := encodeKids_loop_pure H (calcMV H bigFuel) (hp.get a).kids kn hp (depth (.branch pk v cs))
+      (fun hp' i c hfr hic => by
+        have hki := hk i
+        rw [hic] at hki
+        have hlt := depth_kid pk v cs i
+        have hdep' : depth (cs i) ≤ bigFuel := by omega
+        obtain ⟨g1, g2⟩ := calcMV_pure H G (cs i) (kn i) c bigFuel hp' (hrep_dframe hfr.frame _ _ _ hki.2)
+          (coh_dframe hfr.frame _ _ _ _ (hkidc i c hic)) hdep'
+        exact ⟨g1.mono (Nat.le_of_lt hlt), g2⟩)
+      (fun i hi => by have := hk i; rw [hi] at this; exact this.2)
+      (fun i c hic => by have := hk i; rw [hic] at this; exact this.2.real)
+      (List.finRange 16) hp [] (DT.refl hp _)
+    have hl1 : DT hp (encodeKids (calcMV H bigFuel) (hp.get a).kids hp).1 (depth (.branch pk v cs)) := by
+      rw [encodeKids_eq]; exact hloop.1
+    have hl2 : (encodeKids (calcMV H bigFuel) (hp.get a).kids hp).2 =
+        some ([] ++ (List.finRange 16).flatMap (fun i => kidEnc H (kn i))) := by
+      rw [encodeKids_eq]; exact hloop.2
+    refine ⟨_, hl1, ?_⟩
+    unfold encodeAndHash
+    rw [hek]
+    unfold hashFinish
+    rw [hl2]
+    simp only [List.nil_append]
+    rw [hrep_enc_branch H hb hpk hv hk, ← hN]
+
+/-! ### `writeDirtyNode` -/
+
+theorem Touch.refl (hp : Heap) (d : Nat) : Touch hp hp d := fun _ => Or.inl rfl
+
+theorem Touch.mono {hp hp' : Heap} {d d' : Nat} (h : Touch hp hp' d) (hd : d ≤ d') : Touch hp hp' d' := by
+  intro x
+  rcases h x with e | ⟨t', N', h1, h2⟩
+  · exact Or.inl e
+  · exact Or.inr ⟨t', N', h1, Nat.le_trans h2 hd⟩
+
+theorem Touch.trans {hp hp1 hp2 : Heap} {d : Nat} (hc : CacheOnly hp hp1) (a : Touch hp hp1 d)
+    (b : Touch hp1 hp2 d) : Touch hp hp2 d := by
+  intro x
+  rcases b x with e | ⟨t', N', h1, h2⟩
+  · rw [e]; exact a x
+  · exact Or.inr ⟨t', N', (hrep_cacheOnly hc t' N' x).mp h1, h2⟩
+
+theorem WD.db_grow {H : Bytes → Bytes} {c : Ctx} (hp : Heap) {db db' : DB}
+    (h : ∀ k v, Mem db k v → Mem db' k v) : WD H c (hp, db) (hp, db') :=
+  ⟨CacheOnly.refl _, h, fun _ => Or.inl rfl⟩
+
+theorem rootAbove_cache {c : Ctx} {hp hp' : Heap} (hc : CacheOnly hp hp') {t : Trie}
+    (h : RootAbove c hp t) : RootAbove c hp' t :=
+  fun x t' N' hx hr => h x t' N' hx ((hrep_cacheOnly hc t' N' x).mp hr)
+
+theorem rootAbove_mono {c : Ctx} {hp : Heap} {t t' : Trie} (h : RootAbove c hp t) (hd : depth t' ≤ depth t) :
+    RootAbove c hp t' :=
+  fun x t'' N'' hx hr => Nat.le_trans hd (h x t'' N'' hx hr)
+
+/-- `SetClean` on a cell whose cached Merkle value is the right one and whose sub-trie is stored -/
+theorem wd_clean_step {H : Bytes → Bytes} {c : Ctx} {s sB : Heap × DB} {a : Nat} {t : Trie} {N : Node} {d : Nat}
+    (w : WD H c s sB) (tc : Touch s.1 sB.1 d) (hmv : (sB.1.get a).mv = some (flav H c a N))
+    (hd : (s.1.get a).dirty = true) (hr : HRep s.1 t N a) (hdep : depth t ≤ d)
+    (hs : StoG H (Mem sB.2) t N)
+    (hm : ((c.troot == some a) = true ∨ 32 ≤ (encode H N).length) → Mem sB.2 (H (encode H N)) (encode H N)) :
+    WD H c s (sB.1.modify a (fun x => { x with dirty := false }), sB.2) ∧
+    Touch s.1 (sB.1.modify a (fun x => { x with dirty := false })) d ∧
+    ((sB.1.modify a (fun x => { x with dirty := false })).get a).dirty = false := by
+  have hlt : a < sB.1.size := by rw [w.cache.size]; exact dirty_lt hd
+  refine ⟨⟨w.cache.trans (cacheOnly_clean _ a), w.dbmono, fun x => ?_⟩, fun x => ?_, ?_⟩
+  · show (Heap.modify sB.1 a _).get x = _ ∨ _
+    rw [Heap.get_modify]
+    split
+    · rename_i h
+      obtain ⟨rfl, _⟩ := h
+      right
+      refine ⟨hd, Or.inr ⟨t, N, hr, ?_, hs, hm⟩⟩
+      apply hnode_ext
+      · exact w.cache.cell x
+      · rfl
+      · exact hmv
+    · exact w.cell x
+  · rw [Heap.get_modify]
+    split
+    · rename_i h; obtain ⟨rfl, _⟩ := h; exact Or.inr ⟨t, N, hr, hdep⟩
+    · exact tc x
+  · rw [Heap.get_modify, if_pos ⟨rfl, hlt⟩]
+
 end TrieHeap
 end Gossamer
